@@ -48,6 +48,7 @@ TRUST = [
 # ------------------------------------------------------------------------------------------ sorts
 TRef = z3.DeclareSort('TrialRef')
 MIRef = z3.DeclareSort('MetricInfoRef')
+PDRef = z3.DeclareSort('ParamDictRef')   # identity of a ParameterDict object (trials, saved references and copies may alias)
 PVal = z3.DeclareSort('PVal')          # raw parameter value (str | int | float | bool): equality only
 MRest = z3.DeclareSort('MeasRest')     # elapsed_secs, steps, checkpoint_path of a Measurement
 MIRest = z3.DeclareSort('MetricInfoRest')
@@ -163,6 +164,14 @@ class DictV:
         self.di, self.term = di, term
 
 
+class PDictV:
+    """a ParameterDict OBJECT (reference): reads see its current content, item assignment mutates it in place -- every alias
+    (the owning trial, saved references in locals / lists) sees the change."""
+
+    def __init__(self, ref):
+        self.term = ref
+
+
 class TrialV:
     def __init__(self, ref):
         self.term = ref
@@ -189,7 +198,9 @@ class MetricInfoV:
 
 # ------------------------------------------------------------------------------------------ heap
 FIELDS = {
-    'params': (TRef, PD), 'fmset': (TRef, z3.BoolSort()), 'metrics': (TRef, MD), 'rest': (TRef, MRest),
+    # a trial's `parameters` is an OBJECT (pobj) whose current content is pval[object]; 'params' is the derived view pval[pobj[trial]]
+    'pobj': (TRef, PDRef), 'pval': (PDRef, PD), 'palloc': (PDRef, z3.BoolSort()),
+    'fmset': (TRef, z3.BoolSort()), 'metrics': (TRef, MD), 'rest': (TRef, MRest),
     'infeas': (TRef, z3.BoolSort()), 'talloc': (TRef, z3.BoolSort()),
     'goal': (MIRef, z3.IntSort()), 'miname': (MIRef, Str), 'mirest': (MIRef, MIRest), 'mialloc': (MIRef, z3.BoolSort()),
 }
@@ -225,11 +236,15 @@ class HeapArr:
 
 
 def H(run, f):
+    if f == 'params':
+        return ParamsView(run.ghost['H.pobj'], run.ghost['H.pval'], run)
     return HeapArr(run, run.ghost['H.' + f])
 
 
 def HA(run, f):
-    """the raw z3 array of a heap field."""
+    """the raw z3 array of a heap field (for 'params': the derived view)."""
+    if f == 'params':
+        return ParamsView(run.ghost['H.pobj'], run.ghost['H.pval'])
     return run.ghost['H.' + f]
 
 
@@ -243,11 +258,46 @@ def know_distinct(run, *refs):
 
 
 def Hset(run, f, ref, v):
+    if f == 'params':
+        # `trial.parameters = x`: the attrs converter ParameterDict(x) builds a NEW object holding a copy of the content
+        o = new_pdict(run, v)
+        run.ghost['H.pobj'] = z3.Store(run.ghost['H.pobj'], ref, o)
+        return
     run.ghost['H.' + f] = z3.Store(run.ghost['H.' + f], ref, v)
 
 
+def new_pdict(run, value):
+    run.fresh_n += 1
+    o = z3.Const('pdict!%d' % run.fresh_n, PDRef)
+    run.assume(z3.Not(HeapArr(run, run.ghost['H.palloc'])[o]))
+    if getattr(run, 'distinct_refs', None) is not None:
+        know_distinct(run, o)
+        run.pd_refs = getattr(run, 'pd_refs', []) + [o]
+    run.ghost['H.palloc'] = z3.Store(run.ghost['H.palloc'], o, z3.BoolVal(True))
+    run.ghost['H.pval'] = z3.Store(run.ghost['H.pval'], o, value)
+    return o
+
+
+class ParamsView:
+    """the derived heap field 'params': content of a trial's current ParameterDict object."""
+
+    def __init__(self, pobj, pval, run=None):
+        self.pobj, self.pval, self.run = pobj, pval, run
+
+    def __getitem__(self, r):
+        if self.run is not None:
+            return HeapArr(self.run, self.pval)[HeapArr(self.run, self.pobj)[r]]
+        return z3.Select(self.pval, z3.Select(self.pobj, r))
+
+
+def snap_of(ghost):
+    d = {f: ghost['H.' + f] for f in FIELDS}
+    d['params'] = ParamsView(d['pobj'], d['pval'])
+    return d
+
+
 def heap_snapshot(run):
-    return {f: run.ghost['H.' + f] for f in FIELDS}
+    return snap_of(run.ghost)
 
 
 def clock(run):
@@ -283,6 +333,7 @@ def _unwrap_dict(di):
 K_TRIAL = Kind('trial', TRef, TrialV, _unwrap_term(TrialV))
 K_MI = Kind('metricinfo', MIRef, MetricInfoV, _unwrap_term(MetricInfoV))
 K_PD = Kind('paramdict', PD, lambda t: DictV(PDI, t), _unwrap_dict(PDI))
+K_PDOBJ = Kind('paramdictobj', PDRef, PDictV, _unwrap_term(PDictV))
 K_MD = Kind('metricdict', MD, lambda t: DictV(MDI, t), _unwrap_dict(MDI))
 K_RAW = Kind('rawvalue', PVal, RawV, _unwrap_term(RawV))
 K_STR = Kind('str', Str, lambda t: t, lambda it, v: pm._lift(v, Str))
@@ -297,6 +348,8 @@ def kind_of_value(v):
         return K_TRIAL
     if isinstance(v, MetricInfoV):
         return K_MI
+    if isinstance(v, PDictV):
+        return K_PDOBJ
     if isinstance(v, DictV):
         return K_PD if v.di is PDI else K_MD
     if isinstance(v, RawV):
@@ -462,6 +515,8 @@ def view(it, v, di):
 def to_dictv(it, v, di):
     """dict-like value -> immutable dict value (what ParameterDict(x) / _MetricDict(**x) construct)."""
     run = it.run
+    if isinstance(v, PDictV):
+        v = pd_content(it, v)
     if isinstance(v, DictV):
         if v.di is not di:
             raise Unsupported('%s given where %s expected' % (v.di.name, di.name))
@@ -567,6 +622,28 @@ def _bi(name, fn):
     return Builtin(name, fn)
 
 
+def pd_content(it, v):
+    """current content (a dict value) of a ParameterDict object."""
+    return DictV(PDI, H(it.run, 'pval')[v.term])
+
+
+def pd_store(it, v, k, x):
+    """`d[k] = x` on a ParameterDict object: in-place update of its content (seen through every alias)."""
+    run = it.run
+    if isinstance(k, Abs):
+        Hset(run, 'pval', v.term, run.fresh('pdcontent', PD))          # a write under an unknown key
+        return
+    cur = H(run, 'pval')[v.term]
+    kt = pm._lift(k, Str)
+    xt = _unwrap_pval(it, x)
+    dom, val = z3.Store(PDI.dom(cur), kt, z3.BoolVal(True)), z3.Store(PDI.val(cur), kt, xt)
+    if it.truth(PDI.dom(cur)[kt]):
+        new = PDI.mk(PDI.dom(cur), val, PDI.n(cur), PDI.keys(cur), PDI.idx(cur))       # existing key: order unchanged
+    else:
+        new = PDI.mk(dom, val, PDI.n(cur) + 1, z3.Store(PDI.keys(cur), PDI.n(cur), kt), z3.Store(PDI.idx(cur), kt, PDI.n(cur)))
+    Hset(run, 'pval', v.term, z3.simplify(new))
+
+
 def _dict_methods(it, dv, a):
     di = dv.di
     if a in ('items', 'keys', 'values'):
@@ -600,7 +677,7 @@ def _value_getattr(it, v, a):
     if isinstance(v, TrialV):
         r = v.term
         if a == 'parameters':
-            return DictV(PDI, H(run, 'params')[r])
+            return PDictV(H(run, 'pobj')[r])
         if a == 'final_measurement':
             if it.pure:
                 raise Unsupported('Trial.final_measurement in a pure expression')
@@ -659,6 +736,8 @@ def _value_getattr(it, v, a):
         if a == 'name':
             return H(run, 'miname')[v.term]
         return Abs('metric_information.' + a)
+    if isinstance(v, PDictV):
+        return _dict_methods(it, pd_content(it, v), a)
     if isinstance(v, DictV):
         return _dict_methods(it, v, a)
     if isinstance(v, SMap):
@@ -793,6 +872,10 @@ def trial_complete(it, t, args, kw):
 def _subscript(it, base, idx):
     if isinstance(base, Abs):
         return Abs(base.what + '[]')
+    if isinstance(base, PDictV):
+        if isinstance(idx, Abs):
+            return Abs('parameter value')
+        base = pd_content(it, base)
     if isinstance(base, DictV):
         di = base.di
         k = pm._lift(idx, Str)
@@ -822,6 +905,9 @@ def _setitem(it, base, idx, v):
         return True
     if isinstance(base, Abs):
         return True
+    if isinstance(base, PDictV):
+        pd_store(it, base, idx, v)
+        return True
     if isinstance(base, DictV):
         raise Unsupported('in-place item assignment on a %s value' % base.di.name)
     return M.MISSING
@@ -830,6 +916,8 @@ def _setitem(it, base, idx, v):
 def _contains(it, container, x):
     if isinstance(container, Abs) or isinstance(x, Abs):
         return fresh_bool(it, 'in')
+    if isinstance(container, PDictV):
+        container = pd_content(it, container)
     if isinstance(container, DictV):
         return container.di.dom(container.term)[pm._lift(x, Str)]
     if isinstance(container, SMap):
@@ -846,6 +934,8 @@ def _len(it, v):
         n = it.run.fresh('abs_len', z3.IntSort())
         it.run.assume(n >= 0)
         return n
+    if isinstance(v, PDictV):
+        v = pd_content(it, v)
     if isinstance(v, DictV):
         assume_wf(it.run, v)
         return v.di.n(v.term)
@@ -874,6 +964,9 @@ def _truth(it, v):
         return it.run.choose(fresh_bool(it, 'truth'))
     if isinstance(v, (TrialV, MeasV, MeasNew, MetricV, PValV, MetricInfoV, ConverterV, FeatV, FeatMat, FnV, GoalV)):
         return True
+    if isinstance(v, PDictV):
+        c = pd_content(it, v)
+        return PDI.n(c.term) > 0
     if isinstance(v, DictV):
         return v.di.n(v.term) > 0
     if isinstance(v, RawV):
@@ -899,6 +992,10 @@ def _compare(it, op, l, r):
     if isinstance(l, (RawV, PValV)) and isinstance(r, (RawV, PValV)) and isinstance(op, (ast.Eq, ast.NotEq)):
         c = l.term == r.term
         return c if isinstance(op, ast.Eq) else z3.Not(c)
+    if isinstance(l, PDictV):
+        l = pd_content(it, l)
+    if isinstance(r, PDictV):
+        r = pd_content(it, r)
     if isinstance(l, DictV) and isinstance(r, DictV) and l.di is r.di and isinstance(op, (ast.Eq, ast.NotEq)):
         s = z3.Const('s!deq', Str)
         di = l.di
@@ -1183,6 +1280,8 @@ def _fresh_like(it, v, name):
         return TrialV(run.fresh(name, TRef))
     if isinstance(v, MetricInfoV):
         return MetricInfoV(run.fresh(name, MIRef))
+    if isinstance(v, PDictV):
+        return PDictV(run.fresh(name, PDRef))
     if isinstance(v, OptStdV):
         return OptStdV(run.fresh(name + '_has', z3.BoolSort()), run.fresh(name, xreal.XReal))
     if isinstance(v, (MetricV, PValV, RawV, GoalV, FeatV)):
@@ -1224,24 +1323,33 @@ _prev_deepcopy = M.deepcopy
 
 
 def copy_trials(it, xs):
-    """deepcopy of a batch: fresh pairwise-distinct trial references with equal field values."""
+    """deepcopy of a batch: fresh pairwise-distinct trial references (each with a fresh ParameterDict object) with equal field values."""
     run = it.run
     arr = run.fresh('copy_a', z3.ArraySort(z3.IntSort(), TRef))
     pos = run.fresh('copy_pos', z3.ArraySort(TRef, z3.IntSort()))
+    nobj = run.fresh('copy_pd', z3.ArraySort(z3.IntSort(), PDRef))
+    opos = run.fresh('copy_pdpos', z3.ArraySort(PDRef, z3.IntSort()))
     j = z3.Int('j!cp')
     inr = z3.And(j >= 0, j < xs.n)
     old = heap_snapshot(run)
-    run.axiom(z3.ForAll([j], z3.Implies(inr, z3.And(z3.Not(old['talloc'][arr[j]]), pos[arr[j]] == j))))
+    run.axiom(z3.ForAll([j], z3.Implies(inr, z3.And(z3.Not(old['talloc'][arr[j]]), pos[arr[j]] == j,
+                                                    z3.Not(old['palloc'][nobj[j]]), opos[nobj[j]] == j))))
     new = {}
-    for f in TRIAL_FIELDS + ('talloc',):
+    for f in ('fmset', 'metrics', 'rest', 'infeas', 'talloc', 'pobj', 'pval', 'palloc'):
         new[f] = run.fresh('H_' + f, old[f].sort())
         run.ghost['H.' + f] = new[f]
-    r = z3.Const('r!cp', TRef)
-    for f in TRIAL_FIELDS:
+    r, o = z3.Const('r!cp', TRef), z3.Const('o!cp', PDRef)
+    for f in ('fmset', 'metrics', 'rest', 'infeas'):
         run.axiom(z3.ForAll([j], z3.Implies(inr, new[f][arr[j]] == old[f][xs.arr[j]])))
         run.axiom(z3.ForAll([r], z3.Implies(old['talloc'][r], new[f][r] == old[f][r])))
+    run.axiom(z3.ForAll([j], z3.Implies(inr, z3.And(new['pobj'][arr[j]] == nobj[j], new['palloc'][nobj[j]],
+                                                    new['pval'][nobj[j]] == old['pval'][old['pobj'][xs.arr[j]]]))))
+    run.axiom(z3.ForAll([r], z3.Implies(old['talloc'][r], new['pobj'][r] == old['pobj'][r])))
+    run.axiom(z3.ForAll([o], z3.Implies(old['palloc'][o], z3.And(new['palloc'][o], new['pval'][o] == old['pval'][o]))))
     run.axiom(z3.ForAll([r], z3.Implies(old['talloc'][r], new['talloc'][r])))
     run.axiom(z3.ForAll([j], z3.Implies(inr, new['talloc'][arr[j]])))
+    # nothing else is allocated by the copy
+    run.axiom(z3.ForAll([r], z3.Implies(new['talloc'][r], z3.Or(old['talloc'][r], z3.And(pos[r] >= 0, pos[r] < xs.n, arr[pos[r]] == r)))))
     return VList(xs.n, arr, K_TRIAL, pos)
 
 
@@ -1295,6 +1403,8 @@ def _deepcopy(it, v, memo=None):
         r = VList(v.n, v.arr, v.kind, v.pos)
     elif isinstance(v, TrialV):
         r = copy_trial(it, v)
+    elif isinstance(v, PDictV):
+        r = PDictV(new_pdict(it.run, H(it.run, 'pval')[v.term]))          # a fresh object with the same content
     elif isinstance(v, SMap):
         r = v.copy()
     elif isinstance(v, Abs):
@@ -1441,8 +1551,28 @@ ABS_LOOP = E.LoopSpec(lambda it, fr, ctx: [])
 # preserve are obligations), so choosing one by shape cannot make anything unsound.
 LOOP_FALLBACK = [None]
 HAVOC_ALL_LOOP = E.LoopSpec(lambda it, fr, ctx: [], ghost=ALL)
-HAVOC_TRIALS_LOOP = E.LoopSpec(lambda it, fr, ctx: [], ghost=tuple('H.' + f for f in TRIAL_FIELDS + ('talloc',)))
+HAVOC_TRIALS_LOOP = E.LoopSpec(lambda it, fr, ctx: [], ghost=tuple('H.' + f for f in ('pobj', 'pval', 'palloc', 'fmset', 'metrics', 'rest', 'infeas', 'talloc')))
 _prev_symbolic_loop = E.Interp.symbolic_loop
+
+
+_PURE_METHODS = {'append', 'extend', 'add', 'info', 'debug', 'warning', 'error', 'format', 'get', 'keys', 'items', 'values', 'upper', 'lower',
+                 'startswith', 'endswith', 'join', 'index', 'count', 'copy'}
+
+
+def _heap_pure_body(node):
+    """syntactic sufficient condition for a loop body that cannot write the heap of trials / parameter dicts / metric configs: no
+    attribute or item store, and only calls of builtins and of container / string / logging methods."""
+    for n in ast.walk(node):
+        if isinstance(n, (ast.Attribute, ast.Subscript)) and isinstance(n.ctx, (ast.Store, ast.Del)):
+            return False
+        if isinstance(n, ast.Call):
+            f = n.func
+            if isinstance(f, ast.Attribute) and f.attr in _PURE_METHODS:
+                continue
+            if isinstance(f, ast.Name) and f.id in M.BUILTINS:
+                continue
+            return False
+    return True
 
 
 def _is_abstract_iter(v):
@@ -1453,6 +1583,21 @@ def _is_abstract_iter(v):
     if isinstance(v, EnumList):
         return _is_abstract_iter(v.xs)
     return False
+
+
+def _spec_fits(it, fr, iterable, spec):
+    """does the loop found under a contract's key still have the shape the contract was written for?  (its invariant function raises
+    Unsupported on a shape mismatch; loop contracts are checked hints, so choosing another one is always sound)"""
+    ctx = E.LoopCtx()
+    ctx.iter, ctx.phase, ctx.i = iterable, 'init', z3.IntVal(0)
+    ctx.entry_env, ctx.entry_vals, ctx.entry_ghost = dict(fr.env), {}, dict(it.run.ghost)
+    try:
+        spec.invariant(it, fr, ctx)
+        return True
+    except Unsupported:
+        return False
+    except Exception:
+        return True
 
 
 def _symbolic_loop(self, fr, s, it_):
@@ -1473,8 +1618,9 @@ def _symbolic_loop(self, fr, s, it_):
     key = self.loop_key(fr, s)
     added = False
     if key not in E.LOOPS and _is_abstract_iter(it_):
-        # a loop over opaque values: no invariant is needed for what the model tracks (its write set is havocked)
-        E.LOOPS[key] = ABS_LOOP
+        # a loop over opaque values: no invariant is needed for what the model tracks: its write set is havocked, and -- outside
+        # constructors, where the heap of trials matters -- the whole heap as well (the body may write trials / parameter dicts)
+        E.LOOPS[key] = ABS_LOOP if key[1].endswith('.__init__') or _heap_pure_body(s) else HAVOC_ALL_LOOP
         added = True
     elif key not in E.LOOPS and key[1].endswith('.__init__') and key[0].startswith('vizier._src.benchmarks.experimenters'):
         # a loop inside a constructor: nothing is claimed about it -- the heap of trials and the loop's write set are havocked;
@@ -1483,6 +1629,12 @@ def _symbolic_loop(self, fr, s, it_):
                          for n in ast.walk(s))
         E.LOOPS[key] = HAVOC_ALL_LOOP if touches_mi else HAVOC_TRIALS_LOOP
         added = True
+    if key in E.LOOPS and not added and not _spec_fits(self, fr, it_, E.LOOPS[key]):
+        saved_spec = E.LOOPS.pop(key)
+        try:
+            return _symbolic_loop(self, fr, s, it_)
+        finally:
+            E.LOOPS[key] = saved_spec
     if key not in E.LOOPS and LOOP_FALLBACK[0] is not None:
         spec = LOOP_FALLBACK[0](self, fr, s, it_, key)
         if spec is not None:
@@ -2057,7 +2209,11 @@ def make_batch(run, name='xs'):
     pos = z3.Const('pos_' + name, z3.ArraySort(TRef, z3.IntSort()))
     run.assume(n >= 0)
     j = z3.Int('j!mb')
-    run.axiom(z3.ForAll([j], z3.Implies(z3.And(j >= 0, j < n), z3.And(pos[arr[j]] == j, H(run, 'talloc')[arr[j]]))))
+    run.axiom(z3.ForAll([j], z3.Implies(z3.And(j >= 0, j < n), z3.And(pos[arr[j]] == j, HA(run, 'talloc')[arr[j]]))))
+    # every trial owns its ParameterDict object (Trial's attrs converter builds one per trial): allocated, not shared between trials
+    owner = z3.Const('pdowner_' + name, z3.ArraySort(PDRef, z3.IntSort()))
+    pobj, palloc = HA(run, 'pobj'), HA(run, 'palloc')
+    run.axiom(z3.ForAll([j], z3.Implies(z3.And(j >= 0, j < n), z3.And(palloc[pobj[arr[j]]], owner[pobj[arr[j]]] == j))))
     return VList(n, arr, K_TRIAL, pos)
 
 
@@ -2150,7 +2306,10 @@ def to_dictv(it, v, di):      # noqa: F811  (a concrete-spine dict keeps its spi
 
 def bounded_batch(run, k, nparams, name='t'):
     """k pairwise distinct allocated trials, each with `nparams` symbolic parameters (shared names)."""
+    if getattr(run, 'distinct_refs', None) is None:
+        run.distinct_refs = set()
     refs = [z3.Const('%s%d' % (name, i), TRef) for i in range(k)]
+    know_distinct(run, *refs)
     if len(refs) > 1:
         run.assume(z3.Distinct(*refs))
     pnames = [z3.Const('pname%d' % i, Str) for i in range(nparams)]
@@ -2174,6 +2333,7 @@ def bounded_batch(run, k, nparams, name='t'):
     spare = z3.Const('spare_trial', TRef)
     run.assume(z3.And(*[spare != r for r in refs]) if refs else z3.BoolVal(True))
     Hset(run, 'talloc', spare, z3.BoolVal(True))
+    Hset(run, 'params', spare, z3.Const('spare_params', PD))
     run.spare_refs = [spare]
     know_distinct(run, spare, *refs)
     return xs
@@ -2348,8 +2508,9 @@ feas_contains = z3.Function('feas_contains', z3.IntSort(), Str, PVal, z3.BoolSor
 
 
 class PermTable:
-    def __init__(self, tid):
+    def __init__(self, tid, names=None):
         self.tid = z3.IntVal(tid)
+        self.names = names            # concrete-spine runs: the permuted parameter names (exactly these are keys)
 
 
 class PermRow:
@@ -2402,6 +2563,9 @@ def _tables_contains(it, container, x):
 
 
 def _tables_getattr(it, v, a):
+    if isinstance(v, PermTable) and v.names is not None and a in ('keys', 'items', 'values'):
+        rows = [(n, PermRow(v, n)) for n in v.names]
+        return _bi(a, lambda it_, args, kw: [r if a == 'items' else (r[0] if a == 'keys' else r[1]) for r in rows])
     if isinstance(v, (DiscTable, PermTable)) and a in ('keys', 'items', 'values'):
         return _bi(a, lambda it_, args, kw: Abs('table.' + a))
     return M.MISSING
@@ -2752,3 +2916,51 @@ def _fresh_like8(it, v, name):
 
 
 M.fresh_like = _fresh_like8
+
+
+# ------------------------------------------------------------------------------------------ numpy scalar functions on extended reals
+def _xnum(v):
+    return xreal.is_x(v) or (isinstance(v, (int, float)) and not isinstance(v, bool)) or (z3.is_expr(v) and v.sort() in (z3.IntSort(), z3.RealSort()))
+
+
+def x_min(a, b):
+    """numpy minimum / python min on floats: NaN propagates (numpy semantics)"""
+    X = xreal
+    return z3.If(z3.Or(X.is_nan(a), X.is_nan(b)), X.nan, z3.If(X.lt(b, a), b, a))
+
+
+def x_max(a, b):
+    X = xreal
+    return z3.If(z3.Or(X.is_nan(a), X.is_nan(b)), X.nan, z3.If(X.lt(a, b), b, a))
+
+
+def _np_scalar(name, fn, nargs):
+    prev = E.EXTERNAL.get('numpy.' + name)
+
+    def f(it, args, kw):
+        vals = list(args[:nargs])
+        if name == 'clip':
+            vals = [args[0], args[1] if len(args) > 1 else kw.get('a_min'), args[2] if len(args) > 2 else kw.get('a_max')]
+        if len(vals) == nargs and all(v is None or _xnum(v) for v in vals) and _xnum(vals[0]):
+            return fn(*[xreal.lift(v) if v is not None else None for v in vals])
+        if prev is not None:
+            return prev.fn(it, args, kw)
+        return Abs('np.' + name)
+    E.EXTERNAL['numpy.' + name] = Builtin('numpy.' + name, f)
+
+
+def _x_clip(x, lo, hi):
+    r = x
+    if lo is not None:
+        r = x_max(r, lo)
+    if hi is not None:
+        r = x_min(r, hi)
+    return r
+
+
+_np_scalar('clip', _x_clip, 3)
+_np_scalar('minimum', x_min, 2)
+_np_scalar('maximum', x_max, 2)
+_np_scalar('abs', lambda a: z3.If(xreal.sign_neg(a), xreal.neg(a), a), 1)
+_np_scalar('absolute', lambda a: z3.If(xreal.sign_neg(a), xreal.neg(a), a), 1)
+_np_scalar('fabs', lambda a: z3.If(xreal.sign_neg(a), xreal.neg(a), a), 1)
